@@ -10,7 +10,7 @@ func init() {
 	register(&propDef{
 		ID: "C01",
 		Explanation: "Decides the queueing, ordering and pairing structure that every replication history relies on: pending packets are deleted only after every send succeeded and are sent in stored order; new packets are appended behind the stored ones; the set diffed against is the consumer's stored set and the set stored is the one diffed (epoch and launch); a packet is queued iff the diff is non-empty and carries exactly that diff; " +
-			"on the consumer, received changes are accumulated as (stored pending, new packet) in that order, AccumulateChanges overwrites older entries with newer ones unconditionally and emits a totally ordered list; end-block applies the stored pending changes once, returns the result of the apply, and deletes them on every path; both channel ends are ORDERED (C17.R1).",
+			"on the consumer, received changes are accumulated as (stored pending, new packet) in that order, AccumulateChanges overwrites older entries with newer ones unconditionally and emits a totally ordered list; end-block applies the stored pending changes once, returns the result of the apply, and deletes them on every path; both channel ends are ORDERED (C17.R1); the accessors of the pending changes, cross-chain validators, provider channel, pending VSC packets and consumer validator set use their own key spaces.",
 		NotDecided: []string{"that DiffValidators, AccumulateChanges and ApplyCCValidatorChanges compute the right sets (algorithmic over runtime collections; only their per-element structure is checked)", "IBC's ordered, exactly-once delivery (trusted)", "equality of provider-side and consumer-side sets at every block"},
 		Run:        runC01,
 	})
